@@ -174,9 +174,9 @@ func (bc *buildCtx) realImpl(d *D) interface{} {
 	case "NFloat":
 		return tNFloat(floatOf(d))
 	case "complex64":
-		return complex(float32(floatOf(d)), float32(d.N))
+		return complex(float32(floatOf(d)), float32(imagOf(d)))
 	case "complex128":
-		return complex(floatOf(d), float64(d.N))
+		return complex(floatOf(d), imagOf(d))
 	case "string":
 		return string(d.S)
 	case "NStr":
@@ -192,6 +192,28 @@ func (bc *buildCtx) realImpl(d *D) interface{} {
 		var a [3]byte
 		copy(a[:], d.S)
 		return a
+	case "barr8": // room for multi-byte runes (precision counts runes under %s/%q, bytes under %x)
+		var a [8]byte
+		copy(a[:], d.S)
+		return a
+	case "nbarr": // an array whose element type is a named byte type
+		var a [4]tNUint8
+		for i := 0; i < len(a) && i < len(d.S); i++ {
+			a[i] = tNUint8(d.S[i])
+		}
+		return a
+	case "nbslice":
+		a := make([]tNUint8, len(d.S))
+		for i := range a {
+			a[i] = tNUint8(d.S[i])
+		}
+		return a
+	case "SNArr": // the same inside a struct passed by value and behind an interface
+		var a [4]tNUint8
+		for i := 0; i < len(a) && i < len(d.S); i++ {
+			a[i] = tNUint8(d.S[i])
+		}
+		return tSNArr{a, a}
 	case "ptrInt":
 		x := int(d.N)
 		return &x
@@ -433,6 +455,18 @@ func (bc *buildCtx) realImpl(d *D) interface{} {
 			m[[2]int{int(d.Sub[i].N), int(d.Sub[i].N >> 8)}] = d.Sub[i+1].N != 0
 		}
 		return m
+	case "bmap":
+		m := map[bool]string{}
+		for i := 0; i+1 < len(d.Sub); i += 2 {
+			m[d.Sub[i].N != 0] = string(d.Sub[i+1].S)
+		}
+		return m
+	case "cmap":
+		m := map[chan int]string{}
+		for i := 0; i+1 < len(d.Sub); i += 2 {
+			m[keyChans[uint64(d.Sub[i].N)%4]] = string(d.Sub[i+1].S)
+		}
+		return m
 	case "mapIntStr":
 		m := map[int]string{}
 		for i := 0; i+1 < len(d.Sub); i += 2 {
@@ -470,6 +504,10 @@ func (bc *buildCtx) realImpl(d *D) interface{} {
 }
 
 var sharedChan = make(chan int)
+
+// shared targets of channel- and pointer-typed map keys (the nil channel first)
+var keyChans = [4]chan int{nil, make(chan int), make(chan int), make(chan int)}
+var keyInts [3]int
 var sharedFunc = func() {}
 
 func (bc *buildCtx) reals(ds []*D) []interface{} {
@@ -1039,6 +1077,11 @@ func structuralLeaf(k string) bool {
 	return intOfKind(k, 0) != nil
 }
 
+type tSNArr struct {
+	A [4]tNUint8
+	I interface{}
+}
+
 type tKeyStruct struct {
 	A int
 	B string
@@ -1066,8 +1109,31 @@ func (bc *buildCtx) keyOf(d *D) interface{} {
 		return [2]int{int(d.N), int(d.N >> 4)}
 	case "kcomplex":
 		return complex(d.F, float64(d.N))
+	case "kchan":
+		return keyChans[uint64(d.N)%4]
+	case "kuptr":
+		return unsafe.Pointer(&keyInts[uint64(d.N)%3])
+	case "kptr":
+		return &keyInts[uint64(d.N)%3]
 	}
 	return bc.real(d)
+}
+
+// imagOf: the imaginary part of a complex descriptor: N, or one of the special values for N = 9001...
+func imagOf(d *D) float64 {
+	switch d.N {
+	case 9001:
+		return math.NaN()
+	case 9002:
+		return math.Inf(1)
+	case 9003:
+		return math.Inf(-1)
+	case 9004:
+		return math.Copysign(0, -1)
+	case 9005:
+		return 2.5e-7
+	}
+	return float64(d.N)
 }
 
 // floatOf: the float payload of d; S selects the values JSON cannot carry.
